@@ -78,6 +78,36 @@ def mtv(it, m: Mat, y):
             return acc
 
         return Arr.new(Vec(m.cols, col, "real"))
+    if it.config.get("mtv_structural"):
+        # lemma LA2 (lean/LA.lean): [A B]^T y = (A^T y ; B^T y); lemma LA3: a column with one stored entry d at
+        # row p contributes d * y[p]  (the stored row must lie inside the matrix, else the column is empty)
+        grid = getattr(m, "blocks", None)
+        if grid is not None and len(grid) == 1 and all(b is not None for b in grid[0]):
+            parts = [(b, _vec_of(mtv(it, b, y))) for b in grid[0]]
+
+            def col(j):
+                off = 0
+                res = None
+                pieces = []
+                for b, pv in parts:
+                    pieces.append((off, b.cols, pv))
+                    off = ops.scalar_bin("+", off, b.cols)
+                res = z3.RealVal(0)
+                for o, w, pv in reversed(pieces):
+                    res = z3.If(z3.And(_iv(j) >= _iv(o), _iv(j) < _iv(ops.scalar_bin("+", o, w))), ops._real(pv.f(ops.scalar_bin("-", j, o))), res)
+                return res
+
+            return Arr.new(Vec(m.cols, col, "real"))
+        oh = getattr(m, "onehot_cols", None)
+        if oh is not None:
+            rv0, dv1 = oh
+            rows = m.rows
+
+            def col1(t):
+                r = ops.to_term(rv0.f(t))
+                return z3.If(z3.And(r >= 0, r < _iv(rows)), ops._real(dv1.f(t)) * ops._real(yv.f(r)), z3.RealVal(0))
+
+            return Arr.new(Vec(m.cols, col1, "real"))
     f = _fn(it, "mtv", mat_id(it, m).sort(), _RA, z3.IntSort(), z3.RealSort())
     A = _real_array(yv)
     M = mat_id(it, m)
@@ -348,6 +378,7 @@ def coo_from_triplets(it, data, row, col, shape, name=None, region="FRESH", fmt=
         # columns are 0..nnz-1 (np.arange): exactly one stored entry per column
         rv0, dv1 = row.vec(), data.vec()
         m.entry = lambda i, j: z3.If(ops.to_term(rv0.f(j)) == _iv(i), ops._real(dv1.f(j)), z3.RealVal(0))
+        m.onehot_cols = (rv0, dv1)
     if isinstance(nnz, int):
         rv, cv, dv = row.vec(), col.vec(), data.vec()
 
